@@ -790,6 +790,43 @@ class C20(object):
                                           "content of output/work buffers, stack and heap (first differing byte %d of %d): "
                                           "not fully written, or computed from uninitialised memory" % (an, k, b1.size)}
                         break
+        n_third = 0
+        if viol is None and cfg["team"] > 1:
+            # the same call, same team, same previous memory content, under another interleaving: what the kernel promises
+            # does not depend on which thread gets where first (a float sum combined in arrival order may differ in rounding)
+            cfg3 = dict(cfg, strategy="rtc" if cfg["strategy"] != "rtc" else "random", p_inv=2, quantum=1,
+                        sched_seed=cfg["sched_seed"] ^ 0x5EED5EED)
+            ret3, arrays3, st3 = kernels.run_kernel(sim, name, desc["vals"], desc["roles"], cfg3, flip=False, gstyle=desc["gstyle"],
+                                                    step_cap=30000000, pct_est=2000, track_conflicts=0)
+            n_third = 1
+            v = enginea.viol_from_stats(st3, name, kernels.region_names(name))
+            if v is None and st3["guard_broken"]:
+                v = {"class": "oob", "key": name + ":oob",
+                     "detail": "guard bytes next to argument(s) %s were overwritten by an uninstrumented store" % st3["guard_broken"]}
+            if v is not None:
+                viol = v
+            else:
+                r1, p1 = res[0][0], res[0][1]
+                p3 = self._promised(desc, arrays3, ret3)
+                loose = name in self.FLOAT_REDUCTIONS
+
+                def same3(a, b):
+                    a, b = np.asarray(a), np.asarray(b)
+                    if a.shape != b.shape:
+                        return False
+                    if loose and a.dtype.kind == "f":
+                        return np.allclose(a.astype(float), b.astype(float), rtol=1e-4, atol=1e-6, equal_nan=True)
+                    return a.tobytes() == b.tobytes()
+                bad3 = None
+                if not same3(np.array(r1 if r1 is not None else 0), np.array(ret3 if ret3 is not None else 0)):
+                    bad3 = "return value (%r / %r)" % (r1, ret3)
+                for an in p1:
+                    if bad3 is None and not same3(p1[an], p3[an]):
+                        bad3 = "promised output '%s'" % an
+                if bad3:
+                    viol = {"class": "schedule-dependent", "key": name + ":schedule-dependent",
+                            "detail": "%s differs between two interleavings of the same team of %d on the same arguments and the same "
+                                      "previous memory content (%s / %s)" % (bad3, cfg["team"], cfg["strategy"], cfg3["strategy"])}
         if viol is None and name == "sparse_blob2Dproperties":
             # integer overflow is undefined behaviour the access seam cannot see; at the extreme coordinates a uint16 index
             # allows (products beyond 2^31) it shows in the values: the sums are compared with their definition
@@ -819,6 +856,7 @@ class C20(object):
         meas["concurrent_caller_runs"] = 1 if nconc else 0
         meas["f2py_route"] = {f2: 1} if f2 else {}
         meas["concurrent_callers"] = nconc
+        meas["second_interleaving_runs"] = n_third
         dig = enginea.sha(st["digest"], res[0][0], *[res[0][1][k] for k in sorted(res[0][1])])
         wd = enginea.sha(name, repr(desc["vals"]))
         return {"digest": dig, "sig": "%s/%s" % (wd, sorted(st["team_hist"].items())),
